@@ -82,10 +82,16 @@ def _welford(run, prog, W):
     run.analysed_fn(f"{W.name}.__init__")
     run.analysed_fn(f"{W.name}.update")
     v = _param(prog, W, "update")
-    init_state = {f: t for f, t in init.fields.items()}
+    # the three parts of the state are found by what the code does with them; the rest of the rule speaks of them
+    # under their conventional names
+    from .common import welford_roles
+    actual = welford_roles(prog, W)
+    canon = {a: c_ for c_, a in actual.items()}
+    ren = {("field0", a): ("field0", c_) for c_, a in actual.items() if a != c_}
+    init_state = {canon.get(f, f): substitute(t, ren) for f, t in init.fields.items()}
     for f in ("N", "tracked_value", "sum_squares"):
-        run.need(f in init_state, f"WelfordTracker state field {f} is not initialised by the constructor chain")
-    post = {f: substitute(t, {v: V_}) for f, t in upd.fields.items()}
+        run.need(f in init_state, f"WelfordTracker state field {actual[f]} is not initialised by the constructor chain")
+    post = {canon.get(f, f): substitute(substitute(t, {v: V_}), ren) for f, t in upd.fields.items()}
     path, fn = upd.path, "WelfordTracker.update"
     line = upd.fn.lineno
 
@@ -95,6 +101,9 @@ def _welford(run, prog, W):
     stale = set()
     for name in observables:
         ret, s = _getter(prog, W, name)
+        if name == "N" and s is None:
+            ret = ("field0", actual["N"])           # the update count is read as a plain attribute
+        ret = substitute(ret, ren)
         getters[name] = ret
         run.analysed_fn(f"{W.name}.{name}")
         # a getter that stores what it computes and returns the stored value while a validity test holds: the
